@@ -86,6 +86,17 @@ for _lab, _sh in (('no per-degree target', (dct(), dct(), dct())),
                   ('identity', "result['uid'] == self.uid and result['type'] == 'Roadm' and result['type_variety'] == self.type_variety")],
          use_at_calls=False, modifies=[])
 
+# the design bands the operator gave to a ROADM (one band, or several) are part of its export; none given, none exported
+_BAND = lambda: dct(f_min=real(), f_max=real(), spacing=real())
+for _lab, _bands in (('one design band given', lst(_BAND())), ('two design bands given', lst(_BAND(), _BAND())), ('no design band given', const([]))):
+    contract('gnpy.core.elements.Roadm.to_json', name=f'gnpy.core.elements.Roadm.to_json[{_lab}]', props=['C17'],
+             params={'self': extend(RD_EXP(dct(), dct(), dct()), target_pch_out_dbm=real(),
+                                    params=obj('<ns>', design_bands=_bands, per_degree_design_bands=const({})))},
+             let={'p': "result['params']"},
+             ensures=[('design_bands_exported_iff_given', "iff('design_bands' in p, len(self.params.design_bands) > 0) and "
+                                                          "implies('design_bands' in p, p['design_bands'] is self.params.design_bands)")],
+             use_at_calls=False, modifies=[])
+
 # ---------------------------------------------------------------- process-wide simulation parameters
 NLI = obj('NLIParams', method=string(), dispersion_tolerance=real(), phase_shift_tolerance=real(), computed_channels=opt(lst(integer(), integer())),
           computed_number_of_channels=opt(integer()))
